@@ -146,7 +146,8 @@ func ruleC08Description(c *Ctx) {
 		for _, r := range *refs {
 			switch x := r.(type) {
 			case *ssa.BinOp:
-				if x.Op != token.EQL && x.Op != token.NEQ {
+				// compared with "", or embedded verbatim by concatenation
+				if x.Op != token.EQL && x.Op != token.NEQ && x.Op != token.ADD {
 					ok, bad = false, x
 				}
 			case *ssa.MakeInterface:
@@ -364,7 +365,7 @@ func ruleC06SubgroupUnion(c *Ctx) {
 					continue
 				}
 				for _, call := range callsTo(f, matches) {
-					if call.Call.Args[0] == ssa.Value(p) {
+					if call.Call.Args[0] == ssa.Value(p) || (len(call.Call.Args) > 1 && call.Call.Args[1] == ssa.Value(p)) {
 						c.hold(rule, "subgroup-union", call.Pos(), "a subgroup's verdict is the recursive verdict of the same function (through an iteration helper)")
 						return
 					}
@@ -377,9 +378,11 @@ func ruleC06SubgroupUnion(c *Ctx) {
 	for _, e := range elems {
 		for _, f := range closuresOf(matches) {
 			for _, call := range callsTo(f, matches) {
-				if call.Call.Args[0] == e {
-					c.hold(rule, "subgroup-union", call.Pos(), "a subgroup's verdict is the recursive verdict of the same function, so nested groups without rules of their own are unions of their subgroups in turn")
-					return
+				for _, a := range call.Call.Args {
+					if a == e {
+						c.hold(rule, "subgroup-union", call.Pos(), "a subgroup's verdict is the recursive verdict of the same function, so nested groups without rules of their own are unions of their subgroups in turn")
+						return
+					}
 				}
 			}
 		}
